@@ -191,8 +191,11 @@ impl ROut {
 fn mtime_ns(p: &Path) -> Option<u64> {
     let m = std::fs::metadata(p).ok()?;
     let t = m.modified().ok()?;
-    let d = t.duration_since(std::time::UNIX_EPOCH).ok()?;
-    Some(d.as_secs() * 1_000_000_000 + d.subsec_nanos() as u64)
+    match t.duration_since(std::time::UNIX_EPOCH) {
+        Ok(d) => Some(d.as_secs() * 1_000_000_000 + d.subsec_nanos() as u64),
+        // stamped before the epoch: still a timestamp (distinct from every later one)
+        Err(e) => Some(u64::MAX - (e.duration().as_secs().min(1 << 40) * 1_000_000_000 + e.duration().subsec_nanos() as u64)),
+    }
 }
 
 pub fn file_content(p: &Path) -> Option<u64> {
